@@ -1600,7 +1600,6 @@ def main():
         if quick:
             o = rng.choice((0, 2))
             jobs.append(Job("B", "%s opt=%d" % (key, o), src, o, [["1"] * NARGS], asan=True, end="|ende"))
-            jobs.append(Job("B", "%s opt=%d" % (key, 2 - o), src, 2 - o, [["1"] * NARGS], end="|ende"))
         else:
             for o in (0, 1, 2):
                 jobs.append(Job("B", "%s opt=%d" % (key, o), src, o, [["1"] * NARGS], end="|ende"))
@@ -1621,7 +1620,7 @@ def main():
         for o in ((0, 2) if quick else (0, 1, 2)):
             jobs.append(Job("M", "stream=M", src, o, [[t] for t in tapes], sx=sx(o)))
         n_el = src.count(") an der Stelle")      # elements of temporaries: the sanitizer sample prefers these programs
-        if not quick and (i % 3 == 0 or n_el) and asan_M < 150 or quick and (i % 9 == 0 or (n_el and asan_M < 8)):
+        if not quick and (i % 3 == 0 or n_el) and asan_M < 150 or quick and (i % 9 == 0 or (n_el and asan_M < 7)):
             asan_M += 1
             jobs.append(Job("M", "stream=M", src, rng.choice((0, 2)), [[t] for t in tapes[:2] + ["1" * 40]], sx=None, asan=True))
     for risky in ("loop-condition-temporaries", "for-bound-temporaries", "for-header-temporaries", "foreach-header-temporaries"):
@@ -1641,7 +1640,7 @@ def main():
         opts = (i % 3,) if (quick or i >= 150) else (0, 1, 2)
         for o in opts:
             jobs.append(Job("A", "stream=A", src, o, argvs))
-        if (quick and (i % 10 == 0 or (g.derived_in_scope and asan_A < 10))) or (not quick and (i % 5 == 0 or g.derived_in_scope) and asan_A < 220):
+        if (quick and (i % 10 == 0 or (g.derived_in_scope and asan_A < 9))) or (not quick and (i % 5 == 0 or g.derived_in_scope) and asan_A < 220):
             asan_A += 1
             jobs.append(Job("A", "stream=A", src, rng.choice((0, 2)), argvs if g.derived_in_scope else argvs[:2], asan=True))
     log("[c05] %d compile jobs (%d corpus, %d+%d probes, %d M programs, %d A programs)" % (len(jobs), corpus_n, len(P), len(DP), nM, nA))
